@@ -133,6 +133,19 @@ class Gen:
             m.new(mod); ref = m.new(mod2); m.env[v] = ref
             return "for i in 1 to 2 loop %s = %s; if i == 1 then continue; end if; break; end loop;" % (v, "%s") % text if False else "%s = %s; %s = %s;" % (v, text, v, text2)
         tb = r.choice(self.tabs)
+        kk0 = r.random()
+        if kk0 < 0.15:
+            # a temporary table of objects traversed by forall: its private copy (and the objects in it) dies with the loop
+            n = r.randint(1, 3); text, mod = self.ctor()
+            for _ in range(n): m.new(mod)
+            return "forall e in tab(%d, %s) loop z = e.ping(); %s end loop;" % (n, text, r.choice(["", "break;", "continue;"]))
+        if kk0 < 0.3 and lv:
+            # the first item appended to a null table is a copy of the variable's reference
+            s = r.choice(lv); m.env[tb] = [m.env[s]]
+            if r.random() < 0.5:
+                s2 = r.choice([v for v in lv if m.env[v][1] == m.env[s][1]]); m.env[tb].append(m.env[s2])
+                return "%s = tab(); %s.concat(%s); %s.concat(%s);" % (tb, tb, s, tb, s2)
+            return "%s = tab(); %s.concat(%s);" % (tb, tb, s)
         if isinstance(m.env.get(tb), list) and m.env[tb]:
             same = [v for v in lv if m.env[v][1] == m.env[tb][0][1]]
             kk = r.random()
